@@ -19,6 +19,8 @@ var hostPool = []string{
 	"1..2.3", ".1.2.3", "1.2.3.", "127.0.0.1\n", "0x7f.0.0.1", "1.2.3.-4", "1.2.3.4/24", "999.1.1.1", "1.2.3.256",
 	"::", "::1", "2001:db8::1", "2001:DB8::A", "fe80::1%eth0", "fe80::1%", "fe80::1%a.b.example.org", "[::1]", "::ffff:192.0.2.1", "::ffff:c000:201", "1:2:3:4:5:6:7:8", "1:2:3:4:5:6:7:8:9",
 	"1:2:3:4:5:6:7", "1::2::3", ":1::", "1:::2", "12345::", "g::1", "1:2:3:4:5:6:1.2.3.4", "1:2:3:4:5:6:7:1.2.3.4", "::1.2.3.4", "1:2:3:4:5:6:7::", "::2:3:4:5:6:7:8", "1:2:3:4::5:6:7:8",
+	"2001:0db8:1111:2222:3333:4444:192.0.2.10", "ffff:ffff:ffff:ffff:ffff:ffff:255.255.255.255", "0000:0000:0000:0000:0000:0000:0000:0001",
+	"ffff:ffff:ffff:ffff:ffff:ffff:ffff:ffff", "0000:0000:0000:0000:0000:ffff:192.168.100.200", "ffff:ffff:ffff:ffff:ffff:ffff:255.255.255.2555", "255.255.255.255", "0255.255.255.255",
 	"example.org", "localhost", "i2p-projekt.i2p", "", "a", "host", "1.2.3.4.example.org", "٣.٣.٣.٣", "1.2.3.4\x00",
 }
 var portPool = []string{
